@@ -23,6 +23,7 @@ RULE += (' Also: ONE iterator passed as several arguments; sized containers (lis
 RULE += (' Also: key / reduction calls of min, max, reduce (full interleaving with pulls) and sorted, nlargest, nsmallest (call sequence).')
 RULE += (' Also: cycle over a list that is changed after the first pass.')
 RULE += (" Also: after a tool was closed early the caller's synchronous one-shot iterators still yield everything that was not taken.")
+RULE += (' Also: chain / chain.from_iterable ask a re-iterable argument for its iterator no earlier than the counterpart (once the previous argument is used up).')
 ASSUMPTIONS = ["stdlib 3.12 is the reference; events compared are exactly pulls, end checks, calls, yields",
                "generator-flavoured sources are compared with generator twins (a pull after exhaustion is invisible there)",
                "accumulate([]) without initial: only the pull/end events before the documented TypeError are compared"]
@@ -297,6 +298,21 @@ def run_case(case, stats: Counter):
                       "msg": f"{tool} {spec['params']} srcs={spec['srcs']} flav={flav}: logs differ at event {d}: "
                              f"stdlib {exp[d] if d < len(exp) else None} vs asyncstdlib {got[d] if d < len(got) else None}",
                       "detail": {"expected": exp[max(0, d - 6):d + 3], "got": got[max(0, d - 6):d + 3]}})
+    for i, f in enumerate(flav):
+        # chain: a re-iterable argument is ASKED for its iterator once the previous argument is used up (what a live
+        # collection hands out then reflects everything that happened until then), not before
+        # (LATER than the counterpart would be laziness and nothing the property rules out; EARLIER is acting ahead)
+        if tool in ("chain", "chain_from_iterable") and f in ("async_iterable", "sync_iterable") and not viols and not skipped:
+            a, b = sync.iter_asked.get(i), asy.iter_asked.get(i)
+            stats["iterator_request_moments_compared"] += 1
+            if b is None:
+                continue
+            seen = [j for j, g in enumerate(flav) if g not in ("list", "tuple") and j != i]
+            if a is None or any(b.get(j, 0) < a.get(j, 0) for j in seen):
+                viols.append({"key": f"{tool}/iterator-requested-ahead-of-the-counterpart",
+                              "msg": f"{tool} {spec['params']} srcs={spec['srcs']} flav={flav}: argument {i} was asked for its "
+                                     f"iterator when the sources had been used {b} times, the counterpart asks after "
+                                     f"{a if a is not None else 'never (within these steps)'}"})
     if sync.term == ("open",) and not viols and not ops and hasattr(asy.handle, "aclose") and \
             any(f in ("sync_gen", "sync_iter") for f in flav):
         # the consumer stops early and closes the tool: a synchronous one-shot iterator it had handed in is the caller's -
